@@ -476,6 +476,33 @@ def gz_stream_pairing(ck, P, cfg):
                   "that condition fails the z_stream's state is never released" % (close_name, extra, init_name), where(cf, ends[0].line))
 
 
+def allocator_triple(ck, P, cfg):
+    """zalloc, zfree and opaque belong together: a block obtained through one zalloc is released through the zfree that was
+    configured with it (the two sides agree on the layout of the block and on opaque).  Every function that stores one of the
+    three into a z_stream stores all three under the same conditions."""
+    R = "COUP/allocator-triple"
+    n = 0
+    for f in sorted(P.fns.values(), key=lambda f: f.path):
+        if not (f.path.startswith(Z) or f.path.startswith("libz_rs_sys::")):
+            continue
+        w = {}
+        for bi, fp, root, rv, st in f.field_writes():
+            if fp and str(fp[-1]) in ("zalloc", "zfree", "opaque") and bi in f.live:
+                w.setdefault(str(fp[-1]), set()).add(bi)
+        if not w:
+            continue
+        n += 1
+        ck.use_fn(f)
+
+        def conds(blocks):
+            return {frozenset(repr((g.rel, sorted(g.names), sorted(map(str, g.consts)))) for g in shape.dominating_sigs(f, b)) for b in blocks}
+        ok = set(w) == {"zalloc", "zfree", "opaque"} and conds(w["zalloc"]) == conds(w["zfree"]) == conds(w["opaque"])
+        ck.decide(ok, R, "%s@%s" % (f.path.replace(Z, "").replace("libz_rs_sys::", ""), cfg), "zalloc, zfree and opaque stored together",
+                  "%s stores %s of a z_stream but not all three under the same conditions: a stream can end up allocating through one "
+                  "allocator and releasing through another (different block layout, different opaque)" % (f.path, "/".join(sorted(w))), where(f))
+    ck.floor(R + "@" + cfg, n, 3)
+
+
 def run_cfg(ck, cfg):
     P = prog(cfg)
     ck.configs.add(cfg)
@@ -488,6 +515,7 @@ def run_cfg(ck, cfg):
     end_releases(ck, P, cfg)
     gzclose_releases(ck, P, cfg)
     gz_stream_pairing(ck, P, cfg)
+    allocator_triple(ck, P, cfg)
 
 
 def run(ck):
